@@ -124,7 +124,14 @@ class Engine:
             raise SolverUnknown(self.solver.reason_unknown())
         return r
 
-    def decide(self, expr):
+    def peek_tag(self):
+        """the tag recorded with the next decision when replaying a prefix (None when exploring)"""
+        i = len(self.trace)
+        if i < len(self.prefix):
+            return self.prefix[i][2]
+        return None
+
+    def decide(self, expr, tag=None, nocache=False):
         if expr is True or expr is _TRUE:
             return True
         if expr is False or expr is _FALSE:
@@ -140,13 +147,13 @@ class Engine:
             atom = atom.arg(0)
             neg = not neg
         k = atom.get_id()
-        hit = self.decided.get(k)
+        hit = None if nocache else self.decided.get(k)
         if hit is not None:
             return hit[0] != neg
         self.decisions += 1
         i = len(self.trace)
         if i < len(self.prefix):
-            val, forced = self.prefix[i]
+            val, forced = self.prefix[i][:2]
             self.models = []
         else:
             can_t = can_f = False
@@ -175,7 +182,7 @@ class Engine:
                 val, forced = False, True
             else:
                 raise Infeasible("infeasible path")
-        self.trace.append((val, forced))
+        self.trace.append((val, forced, tag))
         self.decided[k] = (val != neg, atom)
         lit = expr if val else z3.Not(expr)
         self.pc_terms.append(lit)
@@ -230,7 +237,7 @@ class Engine:
                 t.pop()
             if not t:
                 return None
-            t[-1] = (False, True)
+            t[-1] = (False, True, t[-1][2])
             self.prefix = list(t)
 
     def summarize(self, fn):
@@ -293,21 +300,22 @@ CONCRETIZE_LIMIT = 24
 
 
 def _concretize_hash(x, eng):
+    """fork over the feasible values of x, one per branch.  The candidate tried at each step is recorded
+    as the decision's tag so that re-executions of the path prefix try the same candidates."""
     for _ in range(CONCRETIZE_LIMIT):
-        m = eng.path_model()
-        if _isinstance(x, SymBool):
-            v = z3.is_true(m.eval(x.e, model_completion=True))
-            if eng.decide(x.e if v else z3.Not(x.e)):
-                return _hash(v)
-        elif _isinstance(x, SymInt):
-            mv = m.eval(x.e, model_completion=True)
-            v = mv.as_long()
-            if eng.decide(x.e == mv):
-                return _hash(v)
+        tag = eng.peek_tag()
+        if tag is not None:
+            v = tag[1]
         else:
-            v = concretize(x, m)
-            if eng.decide(_z3and(ceq(a, b) for a, b in zip(x.items, v))):
-                return _hash(v)
+            v = concretize(x, eng.path_model())
+        if _isinstance(x, SymBool):
+            cond = x.e if v else z3.Not(x.e)
+        elif _isinstance(x, SymInt):
+            cond = x.e == (z3.BitVecVal(v, x.e.size()) if z3.is_bv(x.e) else z3.IntVal(v))
+        else:
+            cond = _z3and(ceq(a, b) for a, b in zip(x.items, v))
+        if eng.decide(cond, tag=("concretize", v), nocache=True):
+            return _hash(v)
     raise Unsupported(f"hash of symbolic {type(x).__name__} with more than {CONCRETIZE_LIMIT} feasible values")
 
 
